@@ -202,6 +202,9 @@ def main(argv=None):
         for inc in m['inconclusives'][:3]:
             lines.append('  inconclusive: ' + inc['msg'] + ' :: ' + str(inc.get('witness'))[-1500:])
     elif m['n_inconclusive']:
+        if os.environ.get('VLAB_SHOW_INCONCLUSIVE'):
+            for inc in m['inconclusives'][:6]:
+                lines.append('  inconclusive: ' + inc['msg'][:300] + ' :: ' + json.dumps(inc.get('witness'), default=repr)[:6000])
         lines.append(f"note: {m['n_inconclusive']} scenario(s) inconclusive (not counted as held): "
                      + '; '.join(sorted({i['msg'][:80] for i in m['inconclusives']}))[:400])
     if not args.replay and not args.no_evidence:
